@@ -4,7 +4,7 @@ scratch copy of /repo (never to /repo) and the quick check of ITS OWN property i
 copy.  Result per seed: 'failing input' (a VIOLATION line with a replay of a concrete input),
 'proof/correspondence only' (only VIOLATION ... no-failing-input-found), or 'missed'.
 
-usage: notes/detect_all.py [-j N] [PID ...]      writes seeded/detection_results.json and prints a table
+usage: notes/detect_all.py [-j N] [--match SUBSTR] [PID ...]      writes seeded/detection_results.json and prints a table
 """
 import concurrent.futures as cf
 import json
@@ -54,8 +54,12 @@ def main():
     jobs = 4
     if args[:1] == ["-j"]:
         jobs = int(args[1]); args = args[2:]
+    match = None
+    if args[:1] == ["--match"]:
+        match = args[1]; args = args[2:]
     seeds = sorted(s for s in os.listdir(os.path.join(ROOT, "seeded"))
-                   if os.path.isfile(os.path.join(ROOT, "seeded", s, "patch.diff")) and (not args or s.split("-")[0] in args))
+                   if os.path.isfile(os.path.join(ROOT, "seeded", s, "patch.diff")) and (not args or s.split("-")[0] in args)
+                   and (match is None or match in s))
     path = os.path.join(ROOT, "seeded", "detection_results.json")
     results = json.load(open(path)) if os.path.exists(path) else {}
     with cf.ThreadPoolExecutor(jobs) as ex:
